@@ -526,7 +526,6 @@ func computeMapRanges(repo, gobin string, fset *token.FileSet, files []*ast.File
 	return res
 }
 
-
 // isTerminating implements the "terminating statement" rules of the Go
 // specification (without labels on break): a select that is terminating
 // stays so for the compiler only if something terminating follows the block
